@@ -190,6 +190,13 @@ func (u *Unit) execCallVals(st *State, fr *Frame, site ssa.Instruction, c *ssa.C
 		u.builtin(st, fr, site, c, b, args, k)
 		return
 	}
+	if len(st.PrivChans) > 0 {
+		for _, a := range args {
+			if a.Cell == nil && a.Tuple == nil {
+				u.chanLeak(st, a.T)
+			}
+		}
+	}
 	sig := c.Signature()
 	var callee *ssa.Function
 	var desigs []string
@@ -375,6 +382,11 @@ func (u *Unit) unknownCall(st *State, fr *Frame, site ssa.Instruction, sig *type
 		u.havocAll(st, fr)
 	}
 	res, rv := u.freshResults(st, "call_"+sanitize(calleeShort(desigs)), sig)
+	for i, r := range res {
+		if r.Sort == SV {
+			u.clockFacts(r, resultTypes(sig)[i], 0)
+		}
+	}
 	u.bumpCalls(st, desigs, args, res, resultTypes(sig)...)
 	k(st, fr, rv)
 }
@@ -444,9 +456,11 @@ func (u *Unit) havocAll(st *State, fr *Frame) {
 	// `assume_stable` (requests, responses, service descriptors)
 	pred := func(addr Term) Term { return And(inner(addr), u.notStable(addr)) }
 	st.AllHavocs = append(st.AllHavocs, pred) // applied lazily per key (getMem)
+	st.Clock = u.fresh
 }
 
 func (u *Unit) havocKey(st *State, key string, modified func(addr Term) Term) {
+	st.Clock = u.fresh
 	so := st.MemSort[key]
 	old := st.Mem[key] // callers bring the key up to date first (getMem / curMem)
 	nm := u.Fresh("M_"+shorten(sanitize(key), 40), ArrSort(SV, so))
@@ -804,6 +818,40 @@ func (u *Unit) applyContract(st *State, fr *Frame, site ssa.Instruction, callee 
 	}
 	// results
 	rts := resultTypes(sig)
+	// objects the callee allocates are new to the caller: their content is whatever
+	// the callee's postcondition says, not the caller's pre-call memory
+	returnsRefs := false
+	for _, rt := range rts {
+		if u.P.TW.SortOf(rt) == SV {
+			returnsRefs = true
+		}
+	}
+	clockAfter := new(int)
+	*clockAfter = 1 << 60
+	if returnsRefs {
+		clock := u.fresh
+		st.AllHavocs = append(st.AllHavocs, func(addr Term) Term {
+			root := addrRoot(addr)
+			if root.Op == "" {
+				if strings.HasPrefix(root.A, "p_") || strings.HasPrefix(root.A, "fv_") || strings.HasPrefix(root.A, "glob!") {
+					return False
+				}
+				if strings.HasPrefix(root.A, "obj!") {
+					if i := strings.LastIndex(root.A, "!"); i >= 0 {
+						var n int
+						if _, err := fmt.Sscanf(root.A[i+1:], "%d", &n); err == nil {
+							if n > clock && n <= *clockAfter {
+								return True
+							}
+							return False
+						}
+					}
+				}
+			}
+			id := App("aid", SInt, App("aobj", SV, addr))
+			return And(Gt(id, IntLit(int64(clock))), Le(id, IntLit(int64(*clockAfter))))
+		})
+	}
 	var res []Term
 	for i, rt := range rts {
 		res = append(res, u.FreshOfType(st, fmt.Sprintf("%s_r%d", sanitize(name), i), rt))
@@ -836,6 +884,14 @@ func (u *Unit) applyContract(st *State, fr *Frame, site ssa.Instruction, callee 
 		u.assumptions["assumed contract: "+ct.Target] = true
 	} else if callee != nil {
 		u.usedContracts[u.P.unitNameOf(callee)] = true
+	}
+	// whatever the callee returned was allocated no later than now
+	*clockAfter = u.fresh
+	st.Clock = u.fresh
+	for i, r := range res {
+		if r.Sort == SV && i < len(rts) {
+			u.clockFacts(r, rts[i], 0)
+		}
 	}
 	k(st, fr, packResults(res))
 }
